@@ -5,14 +5,18 @@ Usage: /venv/bin/python selftest/run.py [--no-seeded]"""
 import json, os, subprocess, sys, time
 sys.path.insert(0, os.path.dirname(os.path.abspath(__file__)))
 from common import base_model, run_overlay, PROPERTIES, reformat  # noqa: E402
-from refactors import rename_locals, insert_noops, flip_comparisons  # noqa: E402
+from refactors import rename_locals, insert_noops, flip_comparisons, permute_methods, de_morgan, return_variable  # noqa: E402
 
 REFACTORS = [
     ("reformat every module through ast.unparse (layout, quotes, comments gone)", reformat),
     ("rename every local variable of every function", rename_locals),
     ("insert pass statements / docstrings into every body", insert_noops),
     ("exchange the operands of every comparison (a < b -> b > a, x == 1 -> 1 == x)", flip_comparisons),
-    ("rename + noops + flipped comparisons + reformat combined", lambda s: flip_comparisons(insert_noops(rename_locals(s)))),
+    ("reverse the order of the undecorated methods of every class / functions of every module", permute_methods),
+    ("De Morgan: not (a or b) -> (not a) and (not b), not (a and b) -> (not a) or (not b)", de_morgan),
+    ("introduce a variable for every returned expression (t = e; return t)", return_variable),
+    ("rename + noops + flipped comparisons + De Morgan + return variables + permuted methods combined",
+     lambda s: permute_methods(return_variable(de_morgan(flip_comparisons(insert_noops(rename_locals(s))))))),
 ]
 
 
